@@ -84,12 +84,22 @@ ASSUMPTIONS = [
     "reflexive). The theorem is TIED to the oracle on every run: the driver reports CtfTr.ctfTRuInClass for every answered "
     "unconditional case, and an in-class case on which the exact oracle rejects the value is a disagreement, whatever "
     "known-finding class its signature falls in (seed 0: 4814 of 6728 answered unconditional cases are in the class)",
-    "value clause, Algorithm 3: ctfTR_sound is OPEN; ctfTR_sound_of_parts reduces it (normalisation on top of ctfTRu_sound_fun) "
-    "to two named identities about J(tau) = P*_tau(D* = tau): sum over V(D*) minus (V(Y*) u V(X*)) of J times c = P*(y*, x*) and "
-    "sum over V(D*) minus V(X*) of J times c = P*(x*), c the probability of the conditions whose ancestral component holds no "
-    "outcome (marginalisation of the valueless ancestors + independence across ancestral components, Correa et al. Lemma 3); "
-    "false of the current code on the open findings cond:value:outcome-lookup-miss / outcome-also-condition; decided on "
-    "every run by the correspondence with the complete model of Algorithm 3 + the exact oracle",
+    "value clause, Algorithm 3: PROVED (Props/C09Sound ctfTR_sound_partial; both identities of ctfTR_sound_of_parts discharged: "
+    "composition axiom for the edges cut at conditioned ancestors, marginalisation of the valueless ancestors and of the "
+    "outcomes, independence of the ancestral components without an outcome; J = Q[V(D*)]) for validated queries built by the "
+    "public wrapper inside the decidable class CtfTr.ctfTRSoundClass: (a) one world - across ALL ancestral components a vertex "
+    "is named by one counterfactual variable only; (b) every outcome is found in the components under its own name "
+    "(OutcomesFound), outcomes over pairwise distinct vertices, no outcome shares its vertex with a condition; (c) no query "
+    "variable intervenes on itself or twice on one vertex with different values; (d) no literal subscript of the query names a "
+    "vertex of the components unless it names a condition (else one of the two sums of line 4 captures it); (e) the simplified "
+    "D* (valueless ancestors as free variables) is in Algorithm 2's class ctfSoundClass; for every compatible family of "
+    "functional SCMs in which the conditions have positive probability and every valuation that reads the query's values and "
+    "literal subscripts (Ctf.EventReading on outcomes ++ conditions; exists iff no name receives two value symbols). OPEN "
+    "outside the class: FALSE on the findings cond:value:* (two_values / multi_world / literal_bound / outcome-lookup-miss / "
+    "outcome-also-condition); not decided for multi-world queries that Algorithm 3 happens to answer correctly. The theorem is "
+    "TIED to the oracle on every run: the driver reports CtfTr.ctfTRInClass for every answered conditional case, and an "
+    "in-class case on which the exact oracle rejects the value is a disagreement whatever known-finding class its signature "
+    "falls in",
     "reading of a valueless item of the QUERY: the oracle reads it as 'equal to its base value' (the item stays a free variable "
     "of the answer), C19 and the Lean theorems read it as 'no constraint'; the two agree when the query has no valueless "
     "item (the class of the tie); a valueless copy absorbed by a valued copy of the same variable is attributed to "
@@ -130,6 +140,7 @@ ASSUMPTIONS = [
     "nodes tested on all vertices, Zero replaced by FAIL, a larger D*, a stricter validator) keeps C09 as stated and is seen "
     "by the correspondence only (tools/c09_mutants.py lists these as `equiv`); inputs with an invalid topological order are "
     "outside the quantifier, so a validator that stops checking the order is not detected",
+    "theorem/oracle tie, THIS RUN: (filled in by the comparison with the model, see _tie_report)",
 ]
 LEANCHECK_MODULES = ["Y0.Model.CtfTr", "Y0.Props.C09", "Y0.Props.C09Sound"]
 EXHAUSTIVE = {"quick": False, "thorough": False}
@@ -925,9 +936,8 @@ def run_python(case):
                 fail = "non-zero expression returned without an event"
             else:
                 fail = _value_check(case, enc, ret_event, queried, cond)
-                if kind == "uncond":
-                    # verdict of the value clause alone, for the theorem/oracle tie (see _Out.__eq__)
-                    out.append("value_bad" if fail else "value_ok")
+                # verdict of the value clause alone, for the theorem/oracle tie (see _Out.__eq__)
+                out.append("value_bad" if fail else "value_ok")
                 if fail is None and kind == "uncond" and not _has_reflexive(queried):
                     fail = _event_check(case, ret_event)
     if "malformed" in case and vclass is None and fail is None and case["malformed"] not in ("overlap_cond", "target_tag_other_graph"):
@@ -968,6 +978,18 @@ def request(case):
     return C.enc(["ctftr", "cond", gs, doms, case["outcomes"], case["conditions"]])
 
 
+def _tie_report():
+    """keep the last entry of ASSUMPTIONS (copied into the evidence file at the end of a run) up to date with the measured
+    share of answered cases inside the classes of the two value theorems"""
+    st = _Out.stats
+    ASSUMPTIONS[-1] = (
+        "theorem/oracle tie, THIS RUN: unconditional: %d of %d answered cases in the class of ctfTRu_sound_partial "
+        "(%d contradicted by the oracle); conditional: %d of %d answered cases in the class of ctfTR_sound_partial "
+        "(%d contradicted by the oracle)" % (
+            st.get("in_theorem_class_uncond", 0), st.get("answered_uncond", 0), st.get("theorem_contradicted_uncond", 0),
+            st.get("in_theorem_class_cond", 0), st.get("answered_cond", 0), st.get("theorem_contradicted_cond", 0)))
+
+
 class _Out(list):
     """model output; equal to the Python's when the verdicts agree and (for an answer) the expressions have the same
     exact values on the case's family (or the same structure) and the simplified events are the same set"""
@@ -989,14 +1011,21 @@ class _Out(list):
         if not ev_ok:
             _Out.stats["mismatch"] += 1
             return False
+        kind = self[5] if len(self) > 5 else "uncond"
+        if len(self) > 4 and self[3] != "none":
+            _Out.stats["answered_" + kind] = _Out.stats.get("answered_" + kind, 0) + 1
         if len(self) > 4 and self[4] == "in_class":
             # THEOREM / ORACLE TIE: the model says the input satisfies the decidable hypotheses of the proved value clause
-            # (ctfTRu_sound_partial: every item valued, no self-intervened variable, ctfSoundClass, a reading exists); then the exact oracle must have accepted the value, whatever known-finding class
-            # the input's signature falls in.  A contradiction is reported as a disagreement with this concrete input.
-            _Out.stats["in_theorem_class"] = _Out.stats.get("in_theorem_class", 0) + 1
+            # (ctfTRu_sound_partial: every item valued, no self-intervened variable, ctfSoundClass, a reading exists;
+            # ctfTR_sound_partial: CtfTr.ctfTRSoundClass, a reading of the query's values and subscripts exists); then the
+            # exact oracle must have accepted the value, whatever known-finding class the input's signature falls in.  A
+            # contradiction is reported as a disagreement with this concrete input.
+            _Out.stats["in_theorem_class_" + kind] = _Out.stats.get("in_theorem_class_" + kind, 0) + 1
             if len(other) > 4 and other[4] == "value_bad":
-                _Out.stats["theorem_contradicted"] = _Out.stats.get("theorem_contradicted", 0) + 1
+                _Out.stats["theorem_contradicted_" + kind] = _Out.stats.get("theorem_contradicted_" + kind, 0) + 1
+                _tie_report()
                 return False
+        _tie_report()
         if self[2] == other[2]:
             _Out.stats["structural"] += 1
             return True
@@ -1013,15 +1042,16 @@ class _Out(list):
 
 
 def canon_model(case, rep):
+    in_class = None
     if case["kind"] == "cond":
-        # (ok <order-sensitive> <answer>): the answer of the complete Algorithm 3
-        order_sensitive, rep = rep[1] == "true", rep[2]
+        # (ok <order-sensitive> <in-class> <answer>): the answer of the complete Algorithm 3 and `CtfTr.ctfTRInClass` = the
+        # decidable hypotheses of the value theorem of Algorithm 3 (ctfTR_sound_partial)
+        order_sensitive, in_class, rep = rep[1] == "true", rep[2] == "true", rep[3]
         if order_sensitive:
             # the verdict of Algorithm 3's final checks depends on which of two entries of a Python dict comprehension
             # over a set-ordered list wins (CtfTr.finalChecksOrderSensitive): only the validator's verdict is compared
             _Out.stats["order_sensitive"] = _Out.stats.get("order_sensitive", 0) + 1
             return _Out(["valid-only", "invalid" if (rep[0] == "err" and rep[1] == "invalid") else "accepted"])
-    in_class = None
     if case["kind"] == "uncond":
         # (ok <in-class> <answer>): `CtfTr.ctfTRuInClass` = the decidable hypotheses of the value theorem of Algorithm 2
         in_class, rep = rep[1] == "true", rep[2]
@@ -1033,6 +1063,7 @@ def canon_model(case, rep):
     out = _Out(["ok", _digest(case, enc), E.to_str_tree(enc), "none" if ev == "none" else sorted(E.to_str_tree(ev), key=json.dumps)])
     if in_class is not None:
         out.append("in_class" if in_class else "out_class")
+        out.append(case["kind"])
     return out
 
 
